@@ -12,7 +12,8 @@ EXPLANATION = (
     "trywait only ever CASes a value it has just seen positive down by one, reports success only on the CAS-success edge, "
     "reports failure for values <= 0, has no exit that is neither, and cannot reach a context switch; post wakes an "
     "announced waiter (counter < 0) and bumps the counter only after a successful wake, or CASes a non-negative value up "
-    "by one — with no exit that neither woke nor incremented.  The inequalities of the property as runtime invariants are not decided.")
+    "by one — with no exit that neither woke nor incremented; with the counter at INT_MAX no increment is reachable (also not on the retry after "
+    "a failed compare-exchange, which refreshes the expected value): the post fails with EOVERFLOW instead of wrapping.  The inequalities of the property as runtime invariants are not decided.")
 NOT_DECIDED = ["the admission inequalities as runtime invariants over all interleavings"]
 ASSUMPTIONS = ["FIBER_SUCCESS = 1, FIBER_ERROR = 0", "wait side: fewer than 2^31 fibers wait on one semaphore (the counter goes negative by one per waiter)"]
 S = "fiber_semaphore"
